@@ -622,7 +622,10 @@ def compute_output_geobox(
     assert src_crs is not None
 
     # figure out "true" dts_crs (handles "utm" -> actual CRS)
-    bbox = gbox.footprint(crs, buffer=0.9, npoints=100).boundingbox
+    # keep boundary segments under 256 pixels so that the curvature of a
+    # projected edge stays well within the 0.9 pixel buffer for large rasters
+    npoints = max(100, min(max(gbox.shape) // 256, 10_000))
+    bbox = gbox.footprint(crs, buffer=0.9, npoints=npoints).boundingbox
     dst_crs = bbox.crs
     assert dst_crs is not None
 
